@@ -18,6 +18,7 @@ from collections import deque
 from vt.reqworld import ReqWorld, VConnection, Observer
 from cassandra.query import SimpleStatement
 from vt.world import wire
+from vt.vthreading import WouldBlock
 
 TAG0 = 100
 ROWS_COLS = [('v', wire.T_INT)]
@@ -139,6 +140,7 @@ class W9(ReqWorld):
         self.wire_violations = []   # (clause, text) noticed when a request arrives
         self.flags = set()          # what really happened in this execution (non-vacuity)
         self.faults = 0
+        self.stuck = False          # the event-loop thread is busy-waiting inside set_keyspace_async (see apply)
         # the reconnection schedules draw a random jitter; pin it (the delays appear in the canonical state)
         import cassandra.policies as _policies
         _policies.randint = _midpoint
@@ -298,6 +300,8 @@ class W9(ReqWorld):
     def enabled(self):
         p = self.p
         evs = []
+        if self.stuck:
+            return evs
         if self.n_sent(False) < p.get('n_req', 4):
             evs.append((('send',), 0))
         if self.n_sent(True) < p.get('n_use', 0):
@@ -327,6 +331,31 @@ class W9(ReqWorld):
     def apply(self, ev):
         if ev not in [e for e, _ in self.enabled()]:
             raise NotEnabled('event %r is not enabled here (enabled: %r)' % (ev, [e for e, _ in self.enabled()]))
+        try:
+            self._dispatch(ev)
+        except WouldBlock as e:
+            # The handler cannot return.  Two driver behaviours that are not a matter of this property end the history
+            # here (flagged and counted; nothing is judged in the half-finished handler):
+            #  - Connection.set_keyspace_async busy-waits (time.sleep in a loop) for a free slot of a connection at full
+            #    capacity - on the event-loop thread, the only one that could free a slot;
+            #  - the thread asks for a non-reentrant lock it holds itself.
+            # Anything else (a wait for something only the explorer can provide) is a harness problem and propagates.
+            tb, names = e.__traceback__, []
+            while tb is not None:
+                names.append(tb.tb_frame.f_code.co_name)
+                tb = tb.tb_next
+            if 'set_keyspace_async' in names and 'sleep' in names:
+                self.flags.add('loop-busy-wait')
+            elif 'held by' in str(e):
+                self.flags.add('self-deadlock')
+            else:
+                raise
+            self.stuck = True
+            return
+        self.w.deliver_outbox()
+        self.normalize()
+
+    def _dispatch(self, ev):
         k = ev[0]
         if k == 'send':
             self.send()
@@ -347,8 +376,6 @@ class W9(ReqWorld):
             self.fail_connection(self.w.conns[ev[1]])
         else:
             raise ValueError(ev)
-        self.w.deliver_outbox()
-        self.normalize()
 
     def canon(self):
         now = self.w.clock._now
@@ -368,7 +395,7 @@ class W9(ReqWorld):
             pools.append((type(pool).__name__, pool.is_shutdown, host.is_up, c.vid if c is not None else None,
                           getattr(pool, '_is_replacing', None), tuple(sorted(t.vid for t in getattr(pool, '_trash', ()))),
                           tuple(sorted(x.vid for x in getattr(pool, '_connections', ()))), getattr(pool, '_keyspace', None)))
-        return (conns, futs, pend, timers, tasks, scheds, tuple(pools), self.faults, self.session.keyspace)
+        return (conns, futs, pend, timers, tasks, scheds, tuple(pools), self.faults, self.session.keyspace, self.stuck)
 
 
 # ---------------------------------------------------------------------------------------- oracle
@@ -392,6 +419,8 @@ def judge(st, part, data, site):
     if st.max_id > st.proto_max:
         part.violation('C09/stream-id-beyond-max/config/%s' % site, 'configured id space 0..%d exceeds the protocol maximum %d'
                        % (st.max_id, st.proto_max), data)
+    if getattr(st, 'stuck', False):
+        return      # a handler did not return (event-loop thread busy-waiting): no handler-quiescent state to judge
     # -- the application: a callback only ever sees the answer to its own request, once
     for f in list(st.futures):
         if getattr(f, '_vuse', None) is not None:
